@@ -540,6 +540,8 @@ def check_ownership_tiling(ck, P, rid):
                         if tf is None or te is None:
                             ck.inconclusive(rid, inst, li.where, "lp_init leaves the thread's range undetermined", cfg)
                             return
+                        if te == tf and cnt >= T and bad is None:
+                            bad = "with %d LPs on %d ranks and %d threads, thread %d of rank %d owns no LP although the rank hosts %d LPs (at least as many as threads)" % (lps, nn, T, r, nid, cnt)
                         if (tf != tnext or te < tf) and bad is None:
                             bad = "with %d LPs on %d ranks and %d threads, thread %d of rank %d owns [%d, %d) but the range of the rank's previous thread ends at %d: an LP is initialised and run by two threads, or by none" % (lps, nn, T, r, nid, tf, te, tnext)
                         tnext = te
@@ -559,7 +561,7 @@ def check_ownership_tiling(ck, P, rid):
     if bad:
         ck.violated(rid, inst, li.where, bad, cfg)
     else:
-        ck.holds(rid, inst, li.where, "%d (LPs, ranks, rank, threads, thread) combinations: the ranges tile the identifier space and agree with the routing macros" % n_cfg, cfg)
+        ck.holds(rid, inst, li.where, "%d (LPs, ranks, rank, threads, thread) combinations: the ranges tile the identifier space, agree with the routing macros and leave no thread without an LP" % n_cfg, cfg)
 
 
 def check_routing_width(ck, P, rid):
